@@ -394,7 +394,8 @@ def split_uri(uri):
     else:
         try:
             scheme, netloc, path, query, fragment = parse.urlsplit(uri)
-        except UnicodeError:
+        except ValueError:
+            # UnicodeError for non-ASCII input, ValueError e.g. "Invalid IPv6 URL"
             raise ParsingError("Bad URI")
 
     return (
